@@ -26,6 +26,13 @@ func familyAlgs(keyType string) []string {
 	return []string{"EdDSA", "HS256", "none"}
 }
 
+// NodeAllowed is the node-wide list of signature algorithms the documentation promises (docs/pages/integrating/
+// supported-protocols-formats.rst: ECDSA P-256/P-384/P-521, EdDSA Ed25519, RSASSA-PSS), independent of the code's lists.
+var NodeAllowed = []string{"ES256", "ES384", "ES512", "PS256", "PS384", "PS512", "EdDSA"}
+
+// RFC004Allowed is the list of Nuts RFC004 §3.1 for DAG transactions (no EdDSA).
+var RFC004Allowed = []string{"ES256", "ES384", "ES512", "PS256", "PS384", "PS512"}
+
 // AllAlgs is every algorithm name the generator puts into headers.
 var AllAlgs = []string{"ES256", "ES384", "ES512", "PS256", "PS384", "PS512", "RS256", "RS384", "RS512", "EdDSA", "ES256K"}
 
@@ -33,7 +40,12 @@ var weirdAlgs = []string{"-", "es256", "foo", "ES256 ", "ES-256", "HS256", "none
 
 // Templates names the attack templates of Gen, in the order they are weighted.
 var Templates = []string{"valid", "alg-none", "alg-hmac", "alg-swap", "sig-form", "mutate", "wrong-signer", "other-party",
-	"private-jwk", "multi-sig", "json-one", "reencode", "kid-games", "extra-headers", "free", "near-party", "near-party"}
+	"private-jwk", "multi-sig", "json-one", "reencode", "kid-games", "extra-headers", "free", "near-party", "near-party", "alg-outside", "alg-outside"}
+
+// OutsidePairs are key type / algorithm pairs that some consumer's documented allow-list excludes; the token is GENUINELY
+// signed with them by the designated key (which the adapter publishes the way the consumer obtains keys), so only the
+// consumer's allow-list stands in the way.
+var OutsidePairs = []struct{ KeyType, Alg string }{{Ed25519, "EdDSA"}, {Ed25519, "EdDSA"}, {RSA, "RS256"}, {RSA, "RS512"}, {RSA, "RS384"}, {RSA, "PS384"}, {P384, "ES384"}}
 
 func subset(t *rapid.T, label string, pool []string, max int) []string {
 	n := rapid.IntRange(0, max).Draw(t, label+".n")
@@ -205,6 +217,13 @@ func Gen(t *rapid.T, o GenOpts) Variant {
 			s.Alg = rapid.SampledFrom(familyAlgs(kt)).Draw(t, "alg")
 		}
 		v.Sigs = []SigSpec{s}
+	case "alg-outside":
+		pair := rapid.SampledFrom(OutsidePairs).Draw(t, "pair")
+		v.VKey = pair.KeyType // on purpose also key types the consumer's valid tokens never use
+		v.Sigs = []SigSpec{{Signer: Victim, Alg: pair.Alg}}
+		if rapid.IntRange(0, 3).Draw(t, "ser") == 3 {
+			v.Ser = rapid.SampledFrom(jsonSers).Draw(t, "jser")
+		}
 	case "private-jwk":
 		s := SigSpec{Signer: rapid.SampledFrom([]string{Victim, Attacker, Fresh}).Draw(t, "signer"), JWK: "signer-priv"}
 		if v.Ref == "kid" {
